@@ -531,10 +531,10 @@ if __name__ == '__main__':
     from math import inf, nan
     import sys
     try:
-        r = requires_value_matches_reference(False, True, True, True, False, False, True, False, True, False, False)
+        r = form_member_rejection_leaves_form_unchanged(0, 4, 3, 5)
     except BaseException as e:
         print('RAISED', repr(e)); r = False
-    print('condition requires_value_matches_reference:', r)
+    print('condition form_member_rejection_leaves_form_unchanged:', r)
     if not r:
         print('VIOLATION property=C15 replay=' + __file__)
     sys.exit(0 if r else 1)
